@@ -69,6 +69,15 @@ def generate(seed, tier):
         items = [[{"t": "f", "p": [kf["n"]]}, rng.randint(0, hi)]] if rng.random() < 0.6 else \
             [{"t": "f", "p": [kf["n"]]}, rng.randint(0, hi)]
         k0["blocks"].append({"n": "cw", "stmts": [progs.EXPR({"t": "in", "e": progs.F(f["n"]), "rl": items})]})
+    if nrf and rf2 and rng.random() < 0.5:
+        # relational bound computed from a non-random field: 'a <= k - c' / 'a >= k + c', where
+        # the arithmetic leaves a's type (negative, or beyond its maximum) for some values of k
+        f = rng.choice(rf2)
+        kf = rng.choice(nrf)
+        c = rng.randint(1, (1 << max(f["w"], kf["w"])))
+        bound = progs.BIN(rng.choice(["-", "+"]), progs.F(kf["n"]), progs.LIT(c))
+        k0["blocks"].append({"n": "ck", "stmts": [progs.EXPR(progs.BIN(
+            rng.choice(["<=", "<", ">=", ">"]), progs.F(f["n"]), bound))]})
     n_parties = st.ops.choice([1, 1, 2])
     n_ops = st.ops.randint(6, 20 if tier == "quick" else 40)
     ops = scen.history_ops(st, prog, g, n_parties, n_ops,
